@@ -223,12 +223,17 @@ type Prim struct {
 	HasMiner bool       // GetMinerIdByAccount(A) finds a miner that GetMiner returns (read when the opcode starts)
 	Stake    uint64     // that miner's stake then
 	Res      *big.Int   // what the opcode pushed; -1: it returned an error; nil: not finished
+	// AUTHCALL only
+	Auth    common.Address // the frame's authorized account
+	Sponsor common.Address // evm.Origin
+	Reached bool           // valueExt == 0, an account is authorized and the nonce operand is its nonce: evm.AuthCall is entered
 }
 
 type RecDB struct {
 	*account.AccountDB
-	Prims []Prim
-	open  []int // indices of 'o' prims whose opcode has not returned yet
+	Prims  []Prim
+	Origin common.Address
+	open   []int // indices of 'o' prims whose opcode has not returned yet
 }
 
 func (r *RecDB) SubBalance(a common.Address, v *big.Int) *big.Int {
@@ -257,6 +262,13 @@ func (r *RecDB) RevertToSnapshot(id int) {
 func (r *RecDB) RecordOp(ev *vm.VerifC06OpEvent) {
 	if !ev.Done {
 		p := Prim{Kind: 'o', A: ev.Contract, Op: byte(ev.Op), Args: ev.Args}
+		if ev.Op == vm.AUTHCALL {
+			p.Sponsor = r.Origin
+			if ev.Authorized != nil && len(ev.Args) >= 5 {
+				p.Auth = *ev.Authorized
+				p.Reached = ev.Args[4].Sign() == 0 && ev.Args[0].IsUint64() && ev.Args[0].Uint64() == r.AccountDB.GetNonce(p.Auth)
+			}
+		}
 		if ev.Op != vm.AUTHCALL {
 			if id := service.MinerManagerImpl.GetMinerIdByAccount(ev.Contract.Bytes(), r.AccountDB); id != nil {
 				if m := service.MinerManagerImpl.GetMiner(id, r.AccountDB); m != nil {
@@ -294,6 +306,7 @@ type Ev struct {
 	HasMiner bool
 	Stake    uint64
 	Res      *big.Int
+	Auth     common.Address // "A": the authorized account (A = sponsor, B = target, Res = 1 if the value moved)
 }
 
 // wordAddr: the low 20 bytes of a stack word, as popAddress reads it.
@@ -310,11 +323,20 @@ func wordAddr(w *big.Int) common.Address {
 // ParseTrace groups primitives into events; false when a primitive does not fit a known pattern.
 func ParseTrace(ps []Prim) ([]Ev, bool) {
 	var out []Ev
-	var auth *Prim // an AUTHCALL has started and its value movement has not been seen yet
+	// auth: an AUTHCALL has entered evm.AuthCall and its value movement has not been seen yet. The movement (if the guard
+	// lets it happen) is the first SubBalance/AddBalance pair, with only the frame's Snapshot in between; anything else
+	// first means the value did not move.
+	var auth *Prim
+	notMoved := func() {
+		if auth != nil {
+			out = append(out, Ev{Kind: "A", A: auth.Sponsor, B: wordAddr(auth.Args[2]), V: auth.Args[3], Auth: auth.Auth, Res: big.NewInt(0)})
+			auth = nil
+		}
+	}
 	for i := 0; i < len(ps); i++ {
 		p := ps[i]
 		if p.Kind != 'n' && p.Kind != 's' {
-			auth = nil
+			notMoved()
 		}
 		switch p.Kind {
 		case 'o':
@@ -323,7 +345,9 @@ func ParseTrace(ps []Prim) ([]Ev, bool) {
 			}
 			switch vm.OpCode(p.Op) {
 			case vm.AUTHCALL:
-				auth = &ps[i]
+				if p.Reached {
+					auth = &ps[i]
+				}
 			case vm.STAKE:
 				out = append(out, Ev{Kind: "St", A: p.A, V: p.Args[0], HasMiner: p.HasMiner, Stake: p.Stake, Res: p.Res})
 			case vm.UNSTAKE:
@@ -336,15 +360,17 @@ func ParseTrace(ps []Prim) ([]Ev, bool) {
 		case 'e':
 		case 's':
 			if i+1 < len(ps) && ps[i+1].Kind == 'a' && ps[i+1].V.Cmp(p.V) == 0 {
-				kind := "V"
 				if auth != nil {
-					// opAuthCall operands: nonce, gas, addr, value, ...: the movement must be the one the opcode asked for
-					if wordAddr(auth.Args[2]) != ps[i+1].A || auth.Args[3].Cmp(p.V) != 0 {
+					// opAuthCall operands: nonce, gas, addr, value, ...: the movement must be the one the opcode asked for,
+					// debited from the sponsor
+					if wordAddr(auth.Args[2]) != ps[i+1].A || auth.Args[3].Cmp(p.V) != 0 || p.A != auth.Sponsor {
 						return out, false
 					}
-					kind, auth = "A", nil
+					out = append(out, Ev{Kind: "A", A: p.A, B: ps[i+1].A, V: p.V, Auth: auth.Auth, Res: big.NewInt(1)})
+					auth = nil
+				} else {
+					out = append(out, Ev{Kind: "V", A: p.A, B: ps[i+1].A, V: p.V})
 				}
-				out = append(out, Ev{Kind: kind, A: p.A, B: ps[i+1].A, V: p.V})
 				i++
 			} else {
 				return out, false
@@ -368,6 +394,7 @@ func ParseTrace(ps []Prim) ([]Ev, bool) {
 			return out, false
 		}
 	}
+	notMoved()
 	return out, true
 }
 
@@ -425,7 +452,7 @@ func ExtractContract(adb *account.AccountDB, tx *types.Transaction, header *type
 	vmCtx.Difficulty = new(big.Int).SetUint64(123)
 	vmCtx.GasPrice = big.NewInt(1000000000)
 	vmCtx.GasLimit = gasLimit - intrinsic
-	rec := &RecDB{AccountDB: adb}
+	rec := &RecDB{AccountDB: adb, Origin: vmCtx.Origin}
 	evm := vm.NewEVMWithNFT(vmCtx, rec, adb)
 	if !vm.VerifC06Instrument(evm, []vm.OpCode{vm.STAKE, vm.UNSTAKE, vm.UNSTAKEALL, vm.AUTHCALL}, rec.RecordOp) {
 		panic("nodehx: evm not instrumentable")
